@@ -401,6 +401,7 @@ class Contract:
         self.ensures = dict(ens)
         self.raises = dict(getattr(cls, "raises", {}))             # exception <=> condition
         self.may_raise = dict(getattr(cls, "may_raise", {}))       # exception => condition (allowed, not required)
+        self.on_raise = dict(getattr(cls, "on_raise", {}))         # exception -> {name: clause holding when it is raised}
         self.raise_args = getattr(cls, "raise_args", None)        # constructor arguments of a modularly raised exception
         self.result = getattr(cls, "result", None)          # TSpec or callable(bound, mk) for modular calls
         self.inline = getattr(cls, "inline", False)
